@@ -34,9 +34,13 @@ def consts(d):
 
 # --------------------------------------------------------------------------- running programs + verdicts
 
-def run_programs(c, programs, label):
+C28_CLAUSES = {"P_blocked", "P_wrong_bytes", "P_too_many_bytes", "P_short_chunk", "P_empty_before_eof"}
+
+
+def run_programs(c, programs, label, own):
     """programs: list of dicts {size, short, seed, prog, origin}; runs each on the real pair, validates the batch
-    with SftpClientProto_Trace and turns verdicts into violations / conformance notes"""
+    with SftpClientProto_Trace and turns verdicts into violations / conformance notes.  `own` = the clauses of the
+    shared trace spec that belong to the calling property's statement; the others are reported as conformance."""
     batch, meta = [], []
     quick = c.quick
     for i, p in enumerate(programs):
@@ -70,7 +74,13 @@ def run_programs(c, programs, label):
                  rec["op"], args, rec["out"], name))
         return key, what, {"size": p["size"], "short_reads": p["short"], "seed": p["seed"], "program": p["prog"],
                            "records": recs}
-    c.verdicts(res["VERDICT"], describe)
+    for row in res["VERDICT"]:
+        for clause in row[-1]:
+            key, what, replay = describe(row[1], clause, row)
+            if clause in own:
+                c.violation(key, what, replay)
+            else:
+                c.conformance(key, what)
     return batch
 
 
@@ -144,6 +154,34 @@ def random_prog(rnd, size):
     return prog
 
 
+def directed_programs():
+    """fixed programs (independent of the seed) for the scenario families of the statement's quantifier, so that
+    every run exercises them: chunks past EOF with a concurrency limit, a read/readv after a readv past EOF,
+    zero-length chunks, overlapping chunks under short reads"""
+    S = 49152
+    out = []
+
+    def add(size, short, prog, seed):
+        out.append({"size": size, "short": short, "seed": seed, "prog": prog, "origin": "directed program %d" % len(out)})
+    add(S, False, [{"op": "readv", "chunks": [[S, 100], [S + 10000, 100]], "maxc": 1}], 11)
+    add(S, False, [{"op": "readv", "chunks": [[S + 1000, 40000], [0, 100], [1000, 100]], "maxc": 0}], 12)
+    add(S, False, [{"op": "readv", "chunks": [[S, 10]], "maxc": 0}, {"op": "seek", "p": 0}, {"op": "read", "n": 100}], 13)
+    add(S, False, [{"op": "readv", "chunks": [[S, 40000]], "maxc": 0}, {"op": "seek", "p": 0}, {"op": "read", "n": 100}], 14)
+    add(S, False, [{"op": "readv", "chunks": [[S, 40000]], "maxc": 0}, {"op": "readv", "chunks": [[0, 100]], "maxc": 0}], 15)
+    add(S, False, [{"op": "readv", "chunks": [[S, 10]], "maxc": 0},
+                   {"op": "readv", "chunks": [[0, 32768], [32768, 32768]], "maxc": 0}], 16)
+    add(1000, False, [{"op": "readv", "chunks": [[0, 0]], "maxc": 0}, {"op": "read", "n": 10}], 17)
+    add(S, True, [{"op": "readv", "chunks": [[32768, 32768], [32768, 32768]], "maxc": 0},
+                  {"op": "readv", "chunks": [[32768, 32768]], "maxc": 1}], 18)
+    add(S, True, [{"op": "readv", "chunks": [[0, 40000], [20000, 40000], [100, 100]], "maxc": 2},
+                  {"op": "readv", "chunks": [[0, 40000]], "maxc": 0}], 19)
+    add(200000, False, [{"op": "prefetch", "maxc": 3, "fsize": True}, {"op": "read", "n": 70000}, {"op": "seek", "p": 150000},
+                        {"op": "read", "n": 100000}, {"op": "seek", "p": 10}, {"op": "read", "n": 50000}], 20)
+    add(200000, True, [{"op": "prefetch", "maxc": 0, "fsize": False}, {"op": "seek", "p": 100000}, {"op": "read", "n": 400000},
+                       {"op": "seek", "p": 0}, {"op": "read", "n": 400000}], 21)
+    return out
+
+
 def run(c):
     progs, small = model_c28(c)
     rnd = random.Random(c.seed)
@@ -156,11 +194,12 @@ def run(c):
         programs.append({"size": size, "short": i % 2 == 1, "seed": c.seed * 7 + i, "prog": scale_prog(progs[i]),
                          "origin": "model program %d" % i})
     nmodel = len(programs)
-    for i in range(150 if c.quick else 2500):
+    programs += directed_programs()
+    for i in range(150 if c.quick else 1500):
         sz = rnd.choice([0, 1, 1000, 32768, 32769, 65536, 100000, 200000, 307200, rnd.randint(0, 307200)])
         programs.append({"size": sz, "short": rnd.random() < 0.5, "seed": c.seed * 100003 + i,
                          "prog": random_prog(rnd, sz), "origin": "random program"})
-    run_programs(c, programs, "p")
+    run_programs(c, programs, "p", C28_CLAUSES)
     c.rule = ("%d of the %d programs of the bounded model (all of them in the thorough tier; 1-2 calls of prefetch/seek/read/readv "
               "with chunks inside, spanning and past EOF, limit None/1) scaled by 16 KiB, alternately with and without short "
               "reads, + seeded random programs of 1-6 calls (sizes 0..300 KiB, chunk lists overlapping/unordered/past EOF, "
@@ -191,7 +230,7 @@ def client_half(c, pid):
         for _ in range(rnd.randint(2, 7)):
             k = rnd.random()
             if k < 0.4:
-                prog.append({"op": "write", "count": rnd.choice([1, 2, 5, 101, 101, 130]), "n": rnd.choice([1, 10, 200]),
+                prog.append({"op": "write", "count": rnd.choice([1, 2, 5, 300, 300, 450]), "n": rnd.choice([1, 10, 200]),
                              "pipelined": True})
             elif k < 0.6:
                 prog.append({"op": "sync", "which": rnd.choice(["stat", "listdir", "lstat", "normalize"])})
@@ -209,5 +248,17 @@ def client_half(c, pid):
                 prog.append({"op": "closeW"})
         prog.append({"op": "closeW"})
         programs.append({"size": sz, "short": False, "seed": c.seed * 1009 + i, "prog": prog, "origin": "client program"})
-    run_programs(c, programs, "c")
+    # fixed programs so that every run exercises the statement's scenario families
+    fixed = [[{"op": "write", "count": 1, "n": 10, "pipelined": True}, {"op": "sync", "which": "stat"},
+              {"op": "write", "count": 400, "n": 10, "pipelined": True}, {"op": "closeW"}],
+             [{"op": "write", "count": 400, "n": 10, "pipelined": True}, {"op": "sync", "which": "listdir"}, {"op": "closeW"}],
+             [{"op": "write", "count": 3, "n": 100, "pipelined": True}, {"op": "readv", "chunks": [[100000, 100], [120000, 100]], "maxc": 1},
+              {"op": "closeW"}],
+             [{"op": "readv", "chunks": [[100000, 10]], "maxc": 0}, {"op": "write", "count": 2, "n": 5, "pipelined": True},
+              {"op": "readv", "chunks": [[0, 32768], [32768, 32768]], "maxc": 0}, {"op": "closeW"}],
+             [{"op": "prefetch", "maxc": 2, "fsize": True}, {"op": "write", "count": 150, "n": 20, "pipelined": True},
+              {"op": "read", "n": 60000}, {"op": "sync", "which": "stat"}, {"op": "read", "n": 60000}, {"op": "closeW"}]]
+    for j, prog in enumerate(fixed):
+        programs.append({"size": 100000, "short": False, "seed": 500 + j, "prog": prog, "origin": "fixed client program %d" % j})
+    run_programs(c, programs, "c", {"P_blocked"})
     return len(programs)
